@@ -43,6 +43,7 @@ PROPS = {
             fam("conv-grad", g(gen.fam_conv, grads=True), 150, 2500, view="values", rule="distinct (batch, depth, image, filters, strides); overlapping and uneven strides tagged"),
             fam("reduce-grad", g(gen.fam_reduce, grads=True), 0, 0, view="values", rule="distinct (shape, k) / reshape targets / element maps, non-uniform seeds"),
             fam("reduce-grad-float", g(gen.fam_reduce, mode="float", grads=True), 0, 0, mode="float", view="values", rule="as above, all element maps, exponents in [-3,3]"),
+            fam("edges-float", g(gen.fam_scalar_edges, mode="float"), 0, 0, mode="float", view="values", rule="every scalar function at magnitudes 1e-30..1e30 (value and gradient), binary operations across magnitudes, costs on probabilities near 0 and 1"),
         ],
         "assumptions": [F64_NOTE, SEED_NOTE, "x = 0 with an exponent below 1 is outside powf's differentiable domain"],
     },
@@ -177,6 +178,7 @@ PROPS = {
             fam("ewise-grad-f32", g(gen.fam_ewise, grads=True), 40, 1000, variant="f32", baseline_variant="f64", rule="gradients of broadcast pairs"),
             fam("reduce-f32-float", g(gen.fam_reduce, mode="f32"), 0, 0, mode="f32", variant="f32", baseline_variant="f64", rule="non-ring maps against Lean Float32 with tolerance 2e-4"),
             fam("dag-f32-float", g(gen.fam_dag, mode="f32"), 60, 1500, mode="f32", variant="f32", baseline_variant="f64", rule="random programs against Lean Float32"),
+            fam("edges-f32-float", g(gen.fam_scalar_edges, mode="f32"), 0, 0, mode="f32", variant="f32", baseline_variant="f64", rule="every scalar function at magnitudes 1e-30..1e30 (value and gradient), binary operations across magnitudes, costs on probabilities near 0 and 1: against Lean Float32"),
         ],
         "assumptions": ["the 'within single-precision rounding' half is validated by differential runs only (no IEEE rounding theory in Lean here): labelled partial",
                         "exact channel on the f32 build: integers below 2^24, where f32 arithmetic is exact"],
